@@ -8,6 +8,7 @@ import WgslVerif.Check.C09
 import WgslVerif.Check.Simple
 import WgslVerif.Check.C02
 import WgslVerif.Check.C10
+import WgslVerif.Check.C01S
 /-
 Driver: reads `(case …)` lines from stdin (written by harness `dump`), prints one line per
 (property, run):   V|<prop>|<case id>|<run#>|<corr>|<spec>|<tags>
@@ -22,7 +23,7 @@ def registry : List (String × (Ctx → Run → Verdict)) :=
     ("ALL", CheckAll.check), ("C08", CheckC08.check), ("C09", CheckC09.check),
     ("C04", CheckSimple.c04), ("C12", CheckSimple.c12), ("C13", CheckSimple.c13), ("C14", CheckSimple.c14),
     ("C15", CheckSimple.c15), ("C02", CheckC02.check),
-    ("C05", CheckSimple.c05), ("C06", CheckSimple.c06), ("C16", CheckSimple.c16), ("C07", CheckSimple.c07), ("C10", CheckC10.check) ]
+    ("C05", CheckSimple.c05), ("C06", CheckSimple.c06), ("C16", CheckSimple.c16), ("C07", CheckSimple.c07), ("C10", CheckC10.check), ("C01S", CheckC01S.check) ]
 
 def decodeCase (s : Sexp) : Except String (Ctx × List Run) := do
   let fs ← match s with
